@@ -168,15 +168,21 @@ Definition st0 : st :=
   {| by_tup := ∅; by_sid := ∅; by_uidx := ∅; by_attr := ∅; attr_of := ∅; pend := []; next := 1; ctr := 0 |}.
 
 (* the four repairs made to the code during this work, as flags, so that the behaviour before each of them can
-   still be stated (the `_refuted` theorems).  Repaired = all four = what /repo HEAD does. *)
+   still be stated (the `_refuted` theorems).  Repaired = all of them. *)
 Record variant := {
   v_owner_check : bool;   (* PADT / session packets must come from the session's own tuple      (b12b708) *)
   v_sid_guard : bool;     (* id 0 is never handed out                                           (731c2cc) *)
   v_reserve : bool;       (* an allocated id stays reserved until it is indexed                 (46cb3dc) *)
-  v_guard_remove : bool   (* removeFromIndexes deletes an entry only if it points to the session (9893c59) *)
+  v_guard_remove : bool;  (* removeFromIndexes deletes an entry only if it points to the session (9893c59) *)
+  v_ha_check : bool       (* restoreFromHASync refuses a synced session whose id is 0 or in use
+                             (proposed: fixes/C04_hasync_id_in_use.patch) *)
 }.
-Definition mkv a b c d := {| v_owner_check := a; v_sid_guard := b; v_reserve := c; v_guard_remove := d |}.
-Definition Repaired : variant := mkv true true true true.        (* /repo HEAD *)
+(* the historical variants are taken WITH the HA check: they concern the other operations *)
+Definition mkv a b c d :=
+  {| v_owner_check := a; v_sid_guard := b; v_reserve := c; v_guard_remove := d; v_ha_check := true |}.
+Definition Repaired : variant := mkv true true true true.
+Definition NoHACheck : variant :=                                 (* /repo HEAD until the HA patch is applied *)
+  {| v_owner_check := true; v_sid_guard := true; v_reserve := true; v_guard_remove := true; v_ha_check := false |}.
 Definition Unreserved : variant := mkv true true false false.    (* before 46cb3dc and 9893c59 *)
 Definition ReserveOnly : variant := mkv true true true false.    (* before 9893c59 *)
 Definition GuardOnly : variant := mkv true true false true.      (* before 46cb3dc *)
@@ -292,7 +298,9 @@ Inductive op :=
 | SESS (t : tuple) (sid : N)
 | SETATTR (t : tuple) (sid : N) (a : bytes)     (* session-stage CHAP Response: sess.Username = a *)
 | DEAD (sid : N)                                (* echo generator: handleDeadPeer *)
-| RESTORE (sid : N) (t : tuple) (a : bytes)     (* installInMemoryState of a persisted session with Username a *)
+| RESTORE (sid : N) (t : tuple) (a : bytes)     (* installInMemoryState of a persisted session with Username a (start-up) *)
+| HASYNC (sid : N) (t : tuple) (a : bytes)      (* restoreFromHASync of one synced checkpoint: at RUN TIME, the id was
+                                                   allocated by the HA peer *)
 | SETNEXT (n : N).                              (* harness only: position the counter *)
 
 Inductive out :=
@@ -302,7 +310,8 @@ Inductive out :=
 | OPend (sid uid : N)
 | OTerm (uid : N)
 | OReach (uid : N)
-| ORestored (uid : N).
+| ORestored (uid : N)
+| OSynced (uid : N).
 
 Definition owner_ok (v : variant) (x : sess) (t : tuple) : bool :=
   if v_owner_check v then tuple_eqb (s_tup x) t else true.
@@ -383,6 +392,16 @@ Definition step (v : variant) (e : env) (s : st) (o : op) : option (st * out) :=
         let s1 := bump_ctr (add_indexes (get_attr s0 (ctr s)) x s0) in
         let n := if N.leb (next s) sid then u16 (sid + 1) else next s in
         Some (set_next s1 n, ORestored (ctr s))
+  | HASYNC sid t a =>
+      if negb (N.ltb sid 65536) then None                      (* uint16 *)
+      else if v_ha_check v && (N.eqb sid 0 || id_used v s sid) then Some (s, ONone)     (* refused *)
+      else
+        (* addToIndexes overwrites whatever sidIndex[sid] / sessions[tuple] hold *)
+        let x := {| s_uid := ctr s; s_sid := sid; s_tup := t |} in
+        let s0 := set_attr_of s (ctr s) a in
+        let s1 := bump_ctr (add_indexes (get_attr s0 (ctr s)) x s0) in
+        let n := if N.leb (next s) sid then u16 (sid + 1) else next s in
+        Some (set_next s1 n, OSynced (ctr s))
   | SETNEXT n => if N.ltb n 65536 then Some (set_next s n, ONone) else None
   end.
 
